@@ -82,16 +82,40 @@ Theorem C12_inverse_key_needs_index :
   exists x y, inv_key_no_index x = inv_key_no_index y /\ inv_deps_named x <> inv_deps_named y.
 Proof. exact inv_key_without_index_refuted. Qed.
 
-(** open finding: the inversion also reads the length of the spans table (the "match a constant
-    exactly" inverse), which the key does not feed; with it in the key the cache is sufficient *)
-Theorem C12_inverse_cache_spans_len_refuted :
-  exists x y, inv_key_l x = inv_key_l y /\ inv_deps_l x <> inv_deps_l y.
-Proof. exact inv_cache_spans_len_refuted. Qed.
+(** the inversion also reads the length of the spans table (the "match a constant exactly"
+    inverse), which the key does not feed; since 868269f such a result is not stored, and with
+    that side condition on the store step the caches are transparent for every function of
+    the keyed dependencies and (where read: [u]) of the table length *)
+Theorem C12_memo_store_transparent :
+  forall (X K V : Type) (keqb : K -> K -> bool), (forall a b, keqb a b = true <-> a = b) ->
+  forall (usable : V -> bool) (store : X -> bool) (key : X -> K) (f : X -> V) history,
+    (forall x y, In x history -> In y history -> store x = true -> key x = key y -> f x = f y) ->
+    run_memo_store keqb usable store key f history = map f history.
+Proof. exact (@memo_store_transparent_on). Qed.
 
-Theorem C12_inverse_spans_len_sufficient_after_fix : forall T (x y : inv_input_l),
-  forallb (wf_sigd T) (fst (fst x)) = true -> forallb (wf_sigd T) (fst (fst y)) = true ->
-  inv_key_l_fix x = inv_key_l_fix y -> inv_deps_l x = inv_deps_l y.
-Proof. exact inv_l_fix_sufficient. Qed.
+Theorem C12_inverse_cache_store_transparent :
+  forall (K V : Type) (keqb : K -> K -> bool), (forall a b, keqb a b = true <-> a = b) ->
+  forall T (kinj : list node * (N * bool) -> K), (forall a b, kinj a = kinj b -> a = b) ->
+  forall (u : list node * (N * bool) -> bool) (g : list node * (N * bool) -> option N -> V) usable
+         (history : list inv_input_l),
+    (forall x, In x history -> forallb (wf_sigd T) (fst (fst x)) = true) ->
+    run_memo_store keqb usable (inv_store_l u) (fun x => kinj (inv_key_l x)) (inv_f_l u g) history
+    = map (inv_f_l u g) history.
+Proof. exact (@inv_cache_store_transparent). Qed.
+
+(** open finding: in Lsp pre-evaluation mode the comptime cache serves values that were read
+    from another compiler's backend (the key is the node only); nodes that do not read the
+    backend (all that Normal mode admits) are covered by the key *)
+Theorem C12_pre_eval_cache_backend_refuted : forall (impure : N -> bool) p, impure p = true ->
+  exists x y, pre_key_b x = pre_key_b y /\ pre_deps_b impure x <> pre_deps_b impure y.
+Proof. exact pre_cache_backend_refuted. Qed.
+
+Theorem C12_pre_eval_cache_sufficient_no_backend : forall impure B (x y : pre_input_b),
+  wf_body B node_eqb (fst (fst x)) = true -> wf_body B node_eqb (fst (fst y)) = true ->
+  globals (fst (fst x)) = [] -> globals (fst (fst y)) = [] ->
+  reads_backend impure (fst (fst x)) = false -> reads_backend impure (fst (fst y)) = false ->
+  pre_key_b x = pre_key_b y -> pre_deps_b impure x = pre_deps_b impure y.
+Proof. exact pre_cache_sufficient_b. Qed.
 
 (** the purity key does not determine what is read of the bindings table (open finding) *)
 Theorem C12_purity_cache_refuted : exists x y, pur_key x = pur_key y /\ pur_deps x <> pur_deps y.
@@ -126,6 +150,9 @@ Proof. exact inv_cache_names_refuted_pre. Qed.
 Theorem C12_zip_cache_names_refuted_pre :
   exists x y, zip_key_pre_names x = zip_key_pre_names y /\ zip_deps_named x <> zip_deps_named y.
 Proof. exact zip_cache_names_refuted_pre. Qed.
+Theorem C12_inverse_cache_spans_len_refuted_pre :
+  exists x y, inv_key_l x = inv_key_l y /\ inv_deps_l x <> inv_deps_l y.
+Proof. exact inv_cache_spans_len_refuted_pre. Qed.
 Theorem C12_repaired_keys_separate_pre :
   inv_key un_w1 <> inv_key un_w2 /\ inv_key un_w3 <> inv_key un_w4 /\
   zip_key zip_w1 <> zip_key zip_w2 /\ zip_key zip_w3 <> zip_key zip_w4 /\
@@ -159,8 +186,10 @@ Print Assumptions C12_zip_cache_sufficient.
 Print Assumptions C12_inverse_cache_transparent.
 Print Assumptions C12_zip_cache_transparent.
 Print Assumptions C12_inverse_key_needs_index.
-Print Assumptions C12_inverse_cache_spans_len_refuted.
-Print Assumptions C12_inverse_spans_len_sufficient_after_fix.
+Print Assumptions C12_memo_store_transparent.
+Print Assumptions C12_inverse_cache_store_transparent.
+Print Assumptions C12_pre_eval_cache_backend_refuted.
+Print Assumptions C12_pre_eval_cache_sufficient_no_backend.
 Print Assumptions C12_purity_cache_refuted.
 Print Assumptions C12_inverse_sufficient_after_fix.
 Print Assumptions C12_zip_sufficient_after_fix.
@@ -171,4 +200,5 @@ Print Assumptions C12_zip_cache_refuted_span_pre.
 Print Assumptions C12_zip_cache_refuted_index_pre.
 Print Assumptions C12_inverse_cache_names_refuted_pre.
 Print Assumptions C12_zip_cache_names_refuted_pre.
+Print Assumptions C12_inverse_cache_spans_len_refuted_pre.
 Print Assumptions C12_repaired_keys_separate_pre.
